@@ -44,11 +44,11 @@ Mon_NewTokens    == (Served /\ Working /\ ~last.lockExpires) => last.gen = pre
 Mon_Late         == (last.kind = "late" /\ Working /\ ~last.lockExpires) => (last.ok /\ last.gen = pre)
 \* exactly one refresh at the provider, everybody served
 Mon_OneRefresh   == (last.kind = "end" /\ Working /\ last.stale /\ ~last.lockExpires) => (last.calls = 1 /\ last.served = last.n)
-\* neither refresh nor validation succeeds: unauthenticated, cookie cleared, entry gone
+\* neither refresh nor validation succeeds: unauthenticated, cookie cleared
 Mon_FailClosed   == (last.mode = "failinvalid" /\ last.stale) =>
                        /\ (last.kind = "done" => (~last.ok /\ last.cleared))
                        /\ (last.kind = "late" => ~last.ok)
-                       /\ (last.kind = "end"  => (last.served = 0 /\ ~last.ok))
+                       /\ (last.kind = "end"  => last.served = 0)      \* (whether the store entry is deleted or left to expire is not the property's business)
 Mon_NoPanic      == last.kind = "done" => ~last.panic
 
 TraceAccepted == TLCGet("stats").diameter - 1 = Len(Trace)
